@@ -151,6 +151,9 @@ def run(chk):
     if not proved and not found:
         where, pout = getattr(chk, "proof_error", ("?", ""))
         chk.broken("proof obligation Properties/C13.v no longer checks (%s)" % where, pout)
+    # DTLS 1.3 handshake machinery: model Hs/Hs13.v, theorems Properties/C13hs13.v, trace replay
+    import hs13lib
+    hs13lib.run_c13(chk, regenerate=False)
     chk.finish(
         level="proof",
         rule="a real server (certificate and PSK variants, hello verification on) fed only crafted datagrams: first/second "
